@@ -24,6 +24,8 @@ package verifharness
 //   key2 <Func> <argsA> | <argsB>   (two keys alive at once: aliasing)   | iterkeyrt tm|bsc|eth rev h | hfk tm|bsc|eth key
 //   heightstr rev h | parseheight s | tmgetiter name rev h | bscsigner name rev h val | bscsigners name | bscdelsigners name
 //   ethsetroot name height root hash | ethgetroot name root height | discard <op>   (op on a dropped cache context)
+//   mkey <PathFunc> pre args… (key the Tendermint client looks up: NewMerklePath + ApplyPrefix + GetKey(1)) | mcodec s
+//   e2e commit|ack pre src dst seq val  (real ICS-23 proof from an IAVL store through VerifyPacketCommitment/Acknowledgement)
 //   grpc commit|ack src dst                      (query server PacketCommitments / PacketAcknowledgements)
 
 import (
@@ -38,19 +40,26 @@ import (
 	"strings"
 	"testing"
 	"time"
+	"net/url"
 	"unicode/utf8"
 
+	"github.com/cosmos/cosmos-sdk/store/iavl"
+	"github.com/cosmos/cosmos-sdk/store/rootmulti"
+	storetypes "github.com/cosmos/cosmos-sdk/store/types"
 	sdk "github.com/cosmos/cosmos-sdk/types"
 	"github.com/cosmos/cosmos-sdk/types/query"
 	"github.com/ethereum/go-ethereum/accounts/abi"
 	"github.com/ethereum/go-ethereum/common"
+	abci "github.com/tendermint/tendermint/abci/types"
 	tmproto "github.com/tendermint/tendermint/proto/tendermint/types"
+	dbm "github.com/tendermint/tm-db"
 
 	"github.com/teleport-network/teleport/app"
 	bsctypes "github.com/teleport-network/teleport/x/xibc/clients/light-clients/bsc/types"
 	ethtypes "github.com/teleport-network/teleport/x/xibc/clients/light-clients/eth/types"
 	tmtypes "github.com/teleport-network/teleport/x/xibc/clients/light-clients/tendermint/types"
 	clienttypes "github.com/teleport-network/teleport/x/xibc/core/client/types"
+	commitmenttypes "github.com/teleport-network/teleport/x/xibc/core/commitment/types"
 	"github.com/teleport-network/teleport/x/xibc/core/host"
 	packettypes "github.com/teleport-network/teleport/x/xibc/core/packet/types"
 	"github.com/teleport-network/teleport/x/xibc/exported"
@@ -299,6 +308,54 @@ func c19HeightsSorted(hs [][2]uint64) []string {
 }
 
 // ---- the ops -------------------------------------------------------------------------------------------
+
+// e2eVerify stores value under the real host key in a fresh IAVL store (plus a few neighbours), commits, takes the real
+// ICS-23 membership proof of that key and verifies it through the Tendermint client's VerifyPacketCommitment /
+// VerifyPacketAcknowledgement.
+func (w *c19World) e2eVerify(fam, pre, src, dst string, seq uint64, val []byte) error {
+	db := dbm.NewMemDB()
+	ms := rootmulti.NewStore(db)
+	sk := storetypes.NewKVStoreKey(pre)
+	ms.MountStoreWithDB(sk, storetypes.StoreTypeIAVL, nil)
+	if err := ms.LoadVersion(0); err != nil {
+		return err
+	}
+	st := ms.GetCommitStore(sk).(*iavl.Store)
+	key := host.PacketCommitmentKey(src, dst, seq)
+	if fam == "ack" {
+		key = host.PacketAcknowledgementKey(src, dst, seq)
+	}
+	st.Set(key, val)
+	st.Set(host.PacketCommitmentKey("other", "chain", 1), []byte{1})
+	st.Set(host.PacketAcknowledgementKey("other", "chain", 2), []byte{2})
+	st.Set([]byte("zzz"), []byte{3})
+	cid := ms.Commit()
+	res := ms.Query(abci.RequestQuery{Path: "/" + pre + "/key", Data: key, Prove: true})
+	if res.ProofOps == nil {
+		return fmt.Errorf("no proof: %s", res.Log)
+	}
+	proof, err := commitmenttypes.ConvertProofs(res.ProofOps)
+	if err != nil {
+		return err
+	}
+	cdc := w.app.AppCodec()
+	proofBz, err := cdc.Marshal(&proof)
+	if err != nil {
+		return err
+	}
+	height := clienttypes.NewHeight(0, uint64(cid.Version))
+	cs := tmtypes.ClientState{ChainId: "e2e", TrustLevel: tmtypes.Fraction{Numerator: 1, Denominator: 3}, TrustingPeriod: time.Hour, UnbondingPeriod: 2 * time.Hour,
+		MaxClockDrift: time.Second, LatestHeight: height, ProofSpecs: commitmenttypes.GetSDKSpecs(), MerklePrefix: commitmenttypes.NewMerklePrefix([]byte(pre)), TimeDelay: 0}
+	cctx, _ := w.ctx.CacheContext()
+	ck := w.app.XIBCKeeper.ClientKeeper
+	ck.SetClientConsensusState(cctx, "e2e-client", height, tmtypes.NewConsensusState(time.Unix(1600000000, 0).UTC(), cid.Hash, bytes.Repeat([]byte{7}, 32)))
+	cst := ck.ClientStore(cctx, "e2e-client")
+	tmtypes.SetProcessedTime(cst, height, 1)
+	if fam == "ack" {
+		return cs.VerifyPacketAcknowledgement(cctx, cst, cdc, height, proofBz, src, dst, seq, val)
+	}
+	return cs.VerifyPacketCommitment(cctx, cst, cdc, height, proofBz, src, dst, seq, val)
+}
 
 func (w *c19World) storeDigest() string {
 	h := sha256.New()
@@ -1202,6 +1259,116 @@ func (w *c19World) apply(r *Rec, op string) string {
 		}
 		return out
 
+	case "mkey":
+		// exactly what tendermint ClientState.VerifyPacketCommitment does with the host path
+		a := f[3:]
+		pathBz := c19BuildKey(f[1], a)
+		mp := commitmenttypes.NewMerklePath(string(pathBz))
+		pre := commitmenttypes.NewMerklePrefix(unhx(f[2]))
+		full, err := commitmenttypes.ApplyPrefix(&pre, mp)
+		if err != nil {
+			return "err"
+		}
+		k, err := full.GetKey(1)
+		if err != nil {
+			r.Count("mkey.err")
+			return "err"
+		}
+		r.Count("mkey.ok")
+		// ---- oracle: the key looked up in a proof is the key the keeper stores under ----
+		keyFn := strings.TrimSuffix(f[1], "Path") + "Key"
+		valid := true
+		plus := false
+		for i, kd := range c19KeyFuncs[f[1]] {
+			if kd == 's' {
+				nm := string(unhx(a[i]))
+				if !c19ValidName(nm) {
+					valid = false
+				}
+				if strings.Contains(nm, "+") {
+					plus = true
+				}
+			}
+		}
+		// (ConsensusStatePath is a text form that is never stored; the stored consensus-state key is binary)
+		if ok := strings.HasPrefix(keyFn, "Packet") || keyFn == "NextSequenceSendKey"; ok && valid {
+			r.Count("oracle.merkle-key")
+			if plus {
+				r.Count("merkle.name-with-plus")
+			}
+			stored := c19BuildKey(keyFn, a)
+			if !bytes.Equal(k, stored) {
+				w.find(r, "C19:merkle-key-differs-from-stored-key:"+keyFn, "the key the Tendermint client looks up in a proof is not the key the keeper stores under", hx(k), hx(stored))
+			}
+			// and the entry really written through the keeper is found under the looked-up key
+			if fam, ok := map[string]string{"PacketCommitmentKey": "commit", "PacketAcknowledgementKey": "ack", "PacketReceiptKey": "receipt"}[keyFn]; ok {
+				cctx, _ := w.ctx.CacheContext()
+				pk := w.app.XIBCKeeper.PacketKeeper
+				src, dst, seq := string(unhx(a[0])), string(unhx(a[1])), c19U64(a[2])
+				switch fam {
+				case "commit":
+					pk.SetPacketCommitment(cctx, src, dst, seq, []byte{0xc1})
+				case "ack":
+					pk.SetPacketAcknowledgement(cctx, src, dst, seq, []byte{0xc1})
+				case "receipt":
+					pk.SetPacketReceipt(cctx, src, dst, seq)
+				}
+				if !cctx.KVStore(w.key).Has(k) {
+					w.find(r, "C19:merkle-key-differs-from-stored-key:"+keyFn, "the entry written through the keeper is not stored under the key a proof looks up", hx(k)+" absent", hx(stored)+" present")
+				}
+			}
+		}
+		return "ok " + hx(k)
+
+	case "mcodec":
+		sv := string(unhx(f[1]))
+		mp := commitmenttypes.NewMerklePath(sv)
+		str := mp.String()
+		pretty := "panic"
+		if pan, _ := safely(func() { pretty = hxs(mp.Pretty()) }); pan {
+			pretty = "panic"
+		}
+		gk := "err"
+		if k, err := mp.GetKey(0); err == nil {
+			gk = hx(k)
+		}
+		esc := "err"
+		k2, err := commitmenttypes.NewMerklePath(url.PathEscape(sv)).GetKey(0)
+		if err == nil {
+			esc = hx(k2)
+		}
+		r.Count("mcodec.ops")
+		if strings.ContainsAny(sv, "+% /") {
+			r.Count("mcodec.special-bytes")
+		}
+		if err != nil || string(k2) != sv {
+			w.find(r, "C19:merkle-escaped-key-roundtrip", "GetKey of an escaped key-path element does not return the original bytes", esc, hxs(sv))
+		}
+		if pretty != hxs("/"+sv) {
+			w.find(r, "C19:merkle-pretty-roundtrip", "Pretty() of a one-element path is not '/' + the element", pretty, hxs("/"+sv))
+		}
+		return hxs(str) + " " + pretty + " " + gk + " " + esc
+
+	case "e2e":
+		pre, src, dst, seq, val := string(unhx(f[2])), string(unhx(f[3])), string(unhx(f[4])), c19U64(f[5]), unhx(f[6])
+		var verr error
+		pan, msg := safely(func() { verr = w.e2eVerify(f[1], pre, src, dst, seq, val) })
+		r.Count("e2e.ops")
+		if strings.Contains(src+dst, "+") {
+			r.Count("e2e.name-with-plus")
+		}
+		if c19ValidName(src) && c19ValidName(dst) && len(val) > 0 && pre != "" {
+			if pan {
+				w.find(r, "C19:merkle-proof-of-stored-key-rejected:"+f[1], "proof verification panics: "+msg, "panic", "verified")
+			} else if verr != nil {
+				w.find(r, "C19:merkle-proof-of-stored-key-rejected:"+f[1], "a valid ICS-23 membership proof of the stored key is rejected by the Tendermint client: "+verr.Error(), "rejected", "verified")
+			}
+		}
+		if pan || verr != nil {
+			return "err"
+		}
+		return "ok"
+
 	case "iseq":
 		var out []string
 		var seqs []packettypes.PacketSequence
@@ -1955,6 +2122,56 @@ func (g c19Gen) pointHistory(clean bool) []string {
 	return h
 }
 
+// names containing every character IsValidID allows, '+' in particular
+var c19PlusNames = []string{"ab+cd", "a+b", "+++", "tele+port", "x+", "+x1", "a.b_c+d-e#f[g]<h>", "A+B", "a+b+c", "chain+1"}
+
+func (g c19Gen) merkleOps() []string {
+	var out []string
+	nm := func() string {
+		switch g.n(4) {
+		case 0:
+			return c19PlusNames[g.n(len(c19PlusNames))]
+		case 1:
+			e := c19EndNames("m" + string([]byte{"abc+._#[]<>-09AZ"[g.n(16)]}))
+			return e[g.n(len(e))]
+		}
+		return g.name(false)
+	}
+	fn := []string{"PacketCommitmentPath", "PacketAcknowledgementPath", "PacketReceiptPath", "PacketRelayerPath", "NextSequenceSendPath", "ConsensusStatePath"}[g.n(6)]
+	parts := []string{"mkey", fn, hxs("xibc")}
+	if g.n(12) == 0 {
+		parts[2] = []string{"-", hxs("a+b"), hxs("x%41")}[g.n(3)]
+	}
+	for _, k := range c19KeyFuncs[fn] {
+		switch k {
+		case 's':
+			n := nm()
+			if g.n(15) == 0 {
+				n = []string{"a%41b", "a%zz", "a%", "100%", "a b", "a%2Fb"}[g.n(6)]
+			}
+			parts = append(parts, hxs(n))
+		case 'n':
+			parts = append(parts, strconv.FormatUint(g.u64(), 10))
+		case 'h':
+			parts = append(parts, strconv.FormatUint(g.u64(), 10), strconv.FormatUint(g.u64(), 10))
+		}
+	}
+	out = append(out, strings.Join(parts, " "))
+	// the codec alone on arbitrary bytes
+	fixed := []string{"", "+", "%", "/", " ", "a+b", "a b", "a%20b", "%zz", "%4", "%41", "%2F", "%2f", "100%", "a/b/c", "é+漢", "\xff\x00+", "+%2B+", "~-_.", "$&,:;=?@", "%%", "%25"}
+	sv := fixed[g.n(len(fixed))]
+	if g.n(2) == 0 {
+		b := g.randBytes(g.n(24))
+		for i := range b {
+			if g.n(3) == 0 {
+				b[i] = "+% /%+ab0"[g.n(9)]
+			}
+		}
+		sv = string(b)
+	}
+	return append(out, "mcodec "+hxs(sv))
+}
+
 func TestC19(t *testing.T) {
 	r := NewRec(t, "C19")
 	defer r.Close()
@@ -2115,6 +2332,25 @@ func TestC19(t *testing.T) {
 	for i := 0; i < 40*scale; i++ {
 		r.Count("endnames.hist")
 		run(g.endNameHistory())
+	}
+	// 10. Merkle path codec: the key a proof looks up vs the key stored; codec on arbitrary bytes; end-to-end proofs
+	for i := 0; i < 300*scale; i++ {
+		run(g.merkleOps())
+		w.hist = nil
+	}
+	for i := 0; i < 36*scale; i++ {
+		src, dst := g.name(true), g.name(true)
+		switch g.n(3) {
+		case 0:
+			dst = c19PlusNames[g.n(len(c19PlusNames))]
+		case 1:
+			src = c19PlusNames[g.n(len(c19PlusNames))]
+		}
+		if g.n(12) == 0 {
+			dst = []string{"a%41b", "a b", "a/b"}[g.n(3)]
+		}
+		run([]string{fmt.Sprintf("e2e %s %s %s %s %d %s", []string{"commit", "ack"}[g.n(2)], hxs("xibc"), hxs(src), hxs(dst), g.u64(), hx(append([]byte{5}, g.randBytes(g.n(32))...)))})
+		w.hist = nil
 	}
 	// 6. point read-back (Get* / Has* after Set*) over names that differ only in case
 	for i := 0; i < 60*scale; i++ {
